@@ -944,3 +944,46 @@ func (f *FS) ResetLog() {
 	f.NOps = 0
 	f.Mutations = 0
 }
+
+// DurableCandidates returns, for every name in directory dir, every content that name
+// may show after a power loss now: the durably linked inode and every inode a pending
+// link/rename would give that name, each with every data variant the persistence model
+// allows (C09: a name never points at content that is not yet durable).
+func (f *FS) DurableCandidates(dir string) map[string][]string {
+	f.mu.Lock()
+	defer f.mu.Unlock()
+	out := map[string][]string{}
+	r, e := f.resolve(dir, true)
+	if e != 0 || r.node == nil || r.node.kind != kDir {
+		return out
+	}
+	d := r.node
+	cands := map[string][]*inode{}
+	for k, n := range d.dents {
+		cands[k] = append(cands[k], n)
+	}
+	for _, op := range f.pend {
+		if op.dir == d && (op.kind == "link" || op.kind == "rename") && op.node != nil {
+			cands[op.name] = append(cands[op.name], op.node)
+		}
+	}
+	for k, ns := range cands {
+		seen := map[string]bool{}
+		for _, n := range ns {
+			if n.kind != kFile {
+				continue
+			}
+			vs := [][]byte{n.dur}
+			if n.dirty {
+				vs = dataVariants(n)
+			}
+			for _, v := range vs {
+				if !seen[string(v)] {
+					seen[string(v)] = true
+					out[k] = append(out[k], string(v))
+				}
+			}
+		}
+	}
+	return out
+}
